@@ -2,6 +2,7 @@ import Std.Data.HashMap
 import Std.Data.HashSet
 import EupsModel.Drv.Util
 import EupsModel.Model.Lock
+import EupsModel.Model.LockPath
 /-! Driver handler of C09 (model `c09`).
 
 * `{"m":"c09","op":"run","procs":[{"kind":"E"|"S","lp":null|n,"tries":n}..],"sched":[pid..]}` runs the schedule
@@ -14,7 +15,7 @@ import EupsModel.Model.Lock
   violating states that none of the three race monitors (D12a/b/c) explains.  Exploration support for the
   correspondence check — not part of any proof. -/
 namespace EupsModel.Drv.C09
-open Lean EupsModel EupsModel.Drv EupsModel.Lock
+open Lean EupsModel EupsModel.Drv EupsModel.Lock EupsModel.LockPath
 
 structure Proc where
   kind  : Kind
@@ -279,11 +280,72 @@ def opExplore (j : Json) : Except String Json := do
     ("residue_example", match residueEx with | some l => toJson l | none => Json.null),
     ("schedules", Json.arr (scheds.map fun l => toJson l))])
 
+/-! ### several stacks -/
+
+structure PProc where
+  base     : Proc
+  path     : List Dir
+  explicit : Bool
+
+def pprocOfJson (j : Json) : Except String PProc := do
+  let base ← procOfJson j
+  let path ← (← jarr j "path").mapM fun v => v.getNat?
+  let explicit := (jbool j "explicit").toOption.getD true
+  pure { base, path, explicit }
+
+def outStr : Out → String
+  | .done => "done" | .failedAcq e => "failed:" ++ errStr e | .failedRel e => "failed_release:" ++ errStr e
+
+def ctlStr (S : PSt) (i : Pid) : String :=
+  match S.ctl i with
+  | .body n _ => if n = 0 then "unlocked" else "locked"
+  | .fin o => outStr o
+  | _ => let (_, c, _) := mobs S i; "pending:" ++ callStr c
+
+/-- violating pairs of `MutexM` among pids `< n` over stacks `< nd` -/
+def mviolators (n nd : Nat) (S : PSt) : List (Pid × Pid) :=
+  ((List.range n).flatMap fun p => (List.range n).filterMap fun q =>
+    if p != q && inBodyM (S.ctl p) && inBodyM (S.ctl q) &&
+       (List.range nd).any (fun d => !decide (related (S.comp d) p q) && (S.path p).contains d && (S.path q).contains d &&
+          (S.comp d).pc p == .hold && (S.comp d).kind p == .ex)
+    then some (p, q) else none)
+
+def opRunPath (j : Json) : Except String Json := do
+  let ps := (← (← jarr j "procs").mapM pprocOfJson).toArray
+  let sched ← (← jarr j "sched").mapM fun v => v.getNat?
+  let nd ← jnat j "ndirs"
+  let n := ps.size
+  let base := ps.map (·.base)
+  let mut S := minit (kindOf base) (lpOf base) (triesOf base)
+    (fun i => match ps[i]? with | some p => p.path | none => [])
+    (fun i => match ps[i]? with | some p => p.explicit | none => true)
+  let mut steps : Array Json := #[]
+  for i in sched do
+    if i ≥ n then throw s!"pid {i} out of range"
+    let (d, c, r) := mobs S i
+    S := mstep S i
+    let v := mviolators n nd S
+    let cs := match d with | some d => callStr c ++ "@" ++ toString d | none => callStr c
+    steps := steps.push (Json.arr #[toJson i, cs, resStr r,
+      Json.arr (v.map fun (a, b) => Json.arr #[toJson a, toJson b]).toArray])
+  let listing := (List.range nd).map fun d =>
+    let s := S.comp d
+    Json.arr ((if s.dir then [Json.str ".lockDir"] else []) ++ (s.files.map fun f => Json.str (fileStr f))).toArray
+  pure (Json.mkObj [
+    ("steps", Json.arr steps),
+    ("pcs", Json.arr ((List.range n).map fun i => Json.str (ctlStr S i)).toArray),
+    ("held", Json.arr ((List.range n).map fun i =>
+      match S.ctl i with
+      | .body k _ => toJson ((S.path i).take k)
+      | _ => Json.null).toArray),
+    ("listing", Json.arr listing.toArray)])
+
 def handle : Handler := fun j => do
   let op ← (← j.getObjVal? "op").getStr?
   match op with
   | "run" => opRun j
   | "explore" => opExplore j
+  | "runpath" => opRunPath j
   | _ => throw s!"unknown op {op}"
 
 end EupsModel.Drv.C09
